@@ -1569,6 +1569,7 @@ func rulePanic(sc panicScope) ruleFn {
 			r.nilMapWrites(fn)
 		}
 		r.silent = false
+		r.chainRefLists(set)
 		_ = nP2
 		_ = nP4
 		_ = nP6
@@ -2455,6 +2456,207 @@ var allTables = []namedTable{
 	{"bounds", &boundsTable}, {"assert", &assertTable}, {"panic", &panicTable}, {"div", &divTable}, {"nil", &nilTable},
 	{"err", &errTable}, {"det", &detTable}, {"select", &selectTable}, {"stepLoop", &stepLoopTable},
 	{"planWrite", &planWriteTable}, {"astWrite", &astWriteTable}, {"variableWrite", &variableWriteTable}, {"fanoutOwnerWrites", &fanoutOwnerWrites}, {"cmp", &cmpTable}, {"globalWrite", &globalWriteTable},
+}
+
+// chainRefLists (R7.P5.chain): a JSON-decoded struct type T of the module that refers to itself
+// through a pointer field (IntrospectionTypeRef.OfType) is walked by code that trusts the
+// chain to be complete; the module's validator for such chains is the method on *T that
+// returns a bool. Every list field whose elements hold a T and that the module reads at all
+// must be ranged over somewhere with the validator applied to the element's T and its answer
+// tested — otherwise the elements of that list reach the walkers unchecked. (This is what the
+// tabled nil entries for the walkers rest on.)
+func (r *Run) chainRefLists(set map[*ssa.Function]bool) {
+	const rule = "R7.P5.chain"
+	// chain types and their validators
+	validators := map[*types.Named][]*ssa.Function{}
+	for _, fn := range r.P.Funcs {
+		if fn.Signature.Recv() == nil || fn.Signature.Params().Len() != 0 || fn.Signature.Results().Len() != 1 || fn.Synthetic != "" {
+			continue
+		}
+		if b, ok := fn.Signature.Results().At(0).Type().Underlying().(*types.Basic); !ok || b.Kind() != types.Bool {
+			continue
+		}
+		nt, _ := derefType(fn.Signature.Recv().Type()).(*types.Named)
+		if nt == nil {
+			continue
+		}
+		st, ok := nt.Underlying().(*types.Struct)
+		if !ok {
+			continue
+		}
+		self := false
+		for i := 0; i < st.NumFields(); i++ {
+			if p, ok := st.Field(i).Type().(*types.Pointer); ok && types.Identical(p.Elem(), nt) && strings.Contains(st.Tag(i), `json:"`) {
+				self = true
+			}
+		}
+		if self {
+			validators[nt] = append(validators[nt], fn)
+		}
+	}
+	if len(validators) == 0 {
+		return
+	}
+	holdsChain := func(elem types.Type) (*types.Named, bool) {
+		st, ok := derefType(elem).Underlying().(*types.Struct)
+		if !ok {
+			return nil, false
+		}
+		for nt := range validators {
+			if types.Identical(derefType(elem), nt) {
+				return nil, false // a list of plain references (read by name), not of holders of a chain
+			}
+		}
+		for i := 0; i < st.NumFields(); i++ {
+			ft := derefType(st.Field(i).Type())
+			for nt := range validators {
+				if types.Identical(ft, nt) {
+					return nt, true
+				}
+			}
+		}
+		return nil, false
+	}
+	type read struct {
+		fn  *ssa.Function
+		ins ssa.Instruction
+	}
+	reads := map[*types.Var][]read{}
+	chainOf := map[*types.Var]*types.Named{}
+	validated := map[*types.Var]bool{}
+	tested := func(c *ssa.Call) bool {
+		if c.Referrers() == nil {
+			return false
+		}
+		for _, ref := range *c.Referrers() {
+			switch x := ref.(type) {
+			case *ssa.If:
+				return true
+			case *ssa.UnOp:
+				if x.Op == token.NOT && x.Referrers() != nil {
+					for _, r2 := range *x.Referrers() {
+						if _, ok := r2.(*ssa.If); ok {
+							return true
+						}
+					}
+				}
+			}
+		}
+		return false
+	}
+	// does the element address `base` (an IndexAddr into the list, or the cell the element was
+	// copied into) have its chain field handed to a validator whose answer is tested?
+	var elemValidated func(base ssa.Value, nt *types.Named) bool
+	elemValidated = func(base ssa.Value, nt *types.Named) bool {
+		if base.Referrers() == nil {
+			return false
+		}
+		for _, ref := range *base.Referrers() {
+			fa, ok := ref.(*ssa.FieldAddr)
+			if !ok || fa.X != base || fa.Referrers() == nil || !types.Identical(derefType(derefType(fa.Type())), nt) {
+				continue
+			}
+			var recvs []ssa.Value
+			if _, isPtr := derefType(fa.Type()).(*types.Pointer); isPtr {
+				for _, r2 := range *fa.Referrers() { // a *T field: the loaded pointer is the receiver
+					if ld, ok := r2.(*ssa.UnOp); ok && ld.Op == token.MUL {
+						recvs = append(recvs, ld)
+					}
+				}
+			} else {
+				recvs = append(recvs, fa)
+			}
+			for _, rv := range recvs {
+				if rv.Referrers() == nil {
+					continue
+				}
+				for _, r2 := range *rv.Referrers() {
+					c, ok := r2.(*ssa.Call)
+					if !ok || len(c.Call.Args) == 0 || c.Call.Args[0] != rv {
+						continue
+					}
+					callee := r.P.declared(c.Call.StaticCallee())
+					for _, v := range validators[nt] {
+						if callee == v && tested(c) {
+							return true
+						}
+					}
+				}
+			}
+		}
+		return false
+	}
+	for _, fn := range r.P.Funcs {
+		for _, ins := range allInstrs(fn) {
+			var f *types.Var
+			var list ssa.Value
+			switch x := ins.(type) {
+			case *ssa.UnOp:
+				if fa, ok := x.X.(*ssa.FieldAddr); ok && x.Op == token.MUL {
+					f, list = fieldOf(fa), x
+				}
+			case *ssa.Field:
+				f, list = fieldOfVal(x), x
+			}
+			if f == nil || f.Pkg() == nil || !strings.HasPrefix(f.Pkg().Path(), modPath) {
+				continue
+			}
+			sl, ok := f.Type().Underlying().(*types.Slice)
+			if !ok {
+				continue
+			}
+			nt, ok := holdsChain(sl.Elem())
+			if !ok {
+				continue
+			}
+			chainOf[f] = nt
+			reads[f] = append(reads[f], read{fn, ins})
+			if list.Referrers() == nil {
+				continue
+			}
+			for _, ref := range *list.Referrers() {
+				ia, ok := ref.(*ssa.IndexAddr)
+				if !ok || ia.X != list || ia.Referrers() == nil {
+					continue
+				}
+				if elemValidated(ia, nt) {
+					validated[f] = true
+				}
+				for _, r2 := range *ia.Referrers() {
+					ld, ok := r2.(*ssa.UnOp)
+					if !ok || ld.Op != token.MUL || ld.Referrers() == nil {
+						continue
+					}
+					if _, isPtr := ld.Type().Underlying().(*types.Pointer); isPtr && elemValidated(ld, nt) {
+						validated[f] = true // a list of pointers: the element itself is the base
+					}
+					for _, r3 := range *ld.Referrers() {
+						if st, ok := r3.(*ssa.Store); ok && st.Val == ssa.Value(ld) && elemValidated(st.Addr, nt) {
+							validated[f] = true
+						}
+					}
+				}
+			}
+		}
+	}
+	var fields []*types.Var
+	for f := range reads {
+		fields = append(fields, f)
+	}
+	sort.Slice(fields, func(i, j int) bool { return fields[i].Pos() < fields[j].Pos() })
+	for _, f := range fields {
+		nt := chainOf[f]
+		construct := "elements of " + f.Name() + " hold a " + nt.Obj().Name() + " chain"
+		for _, rd := range reads[f] {
+			r.silent = !set[rd.fn]
+			if validated[f] {
+				r.OK(rule, fnName(rd.fn), construct, r.P.pos(rd.ins.Pos()), "the list is ranged over with the chain validator applied to every element and its answer tested")
+			} else {
+				r.Bad(rule, fnName(rd.fn), construct, r.P.pos(rd.ins.Pos()), "the list field "+f.Name()+" is read, but nowhere in the module is it ranged over with the "+nt.Obj().Name()+" validator ("+fnName(validators[nt][0])+") applied to its elements: a reference in it whose wrapper chain ends early (ofType: null) reaches the code that follows the chain without a nil test; "+r.ctxNote(rd.fn))
+			}
+		}
+	}
+	r.silent = false
 }
 
 // jsonDecodedList: v is a list read from a variable that was handed to encoding/json, or a
